@@ -17,7 +17,7 @@ CASES = [
     m("load list lacks .mat", "C18-A", D, "        if extension not in [\".dat\",\".txt\",\".npy\",\".npz\", \".mat\"]:", "        if extension not in [\".dat\",\".txt\",\".npy\",\".npz\"]:"),
     m("npz written under another key", "C18-A", M, "        numpy.savez_compressed(file, data=self.data)", "        numpy.savez_compressed(file, array=self.data)"),
     m("npy branch writes text", "C18-A", M, "        numpy.save(file, self.data)", "        numpy.savetxt(file, self.data)"),
-    m("mat reader selects another variable", "C18-A", D, "        _data = io.loadmat(file)[\"data\"]", "        _data = io.loadmat(file)[\"DATA\"]"),
+    m("mat reader selects another variable", "C18-A", D, "        _data = mfile[\"data\"]", "        _data = mfile[\"DATA\"]"),
     m("axis packed as last column", "C18-A", D, "            data[:,1:] = self.data\n            data[:,0] = axis.data     ", "            data[:,:-1] = self.data\n            data[:,-1] = axis.data     "),
     m("loader forgets to unpack the axis", "C18-A", D,
       "        _data = numpy.load(filename)\n        self.data = self._extract_data_with_axis(_data, with_axis)", "        _data = numpy.load(filename)\n        self.data = _data"),
@@ -32,10 +32,10 @@ CASES = [
 
 CASES += [
     m("packed table always real", "C18-A", D,
-      "            data = numpy.zeros(shp,dtype=self.data.dtype)\n            data[:,1] = self.data",
+      "            data = numpy.zeros(shp,dtype=dtype)\n            data[:,1] = self.data",
       "            data = numpy.zeros(shp,dtype=float)\n            data[:,1] = self.data"),
     t("packed table type promoted over axis and data", D,
-      "            data = numpy.zeros(shp,dtype=self.data.dtype)\n            data[:,1] = self.data",
+      "            data = numpy.zeros(shp,dtype=dtype)\n            data[:,1] = self.data",
       "            data = numpy.zeros(shp,dtype=numpy.result_type(axis.data, self.data))\n            data[:,1] = self.data"),
 ]
 
@@ -60,4 +60,15 @@ CASES += [
         ("quantarhei/qm/propagators/dmevolution.py", "               out[i,j+1] = numpy.real(self.data[i,j,j])", "               out[i,j+1] = numpy.real(self._data[i,j,j])", 1)]},
     {"name": "text export of an evolution reads the matrix of a time step once through the property", "kind": "twin", "edits": [
         ("quantarhei/qm/propagators/dmevolution.py", "               out[i,j+1] = numpy.real(self.data[i,j,j])", "               rho = self.data[i,:,:]\n               out[i,j+1] = numpy.real(rho[j,j])", 1)]},
+]
+
+CASES += [
+    {"name": "exported table takes the type of the data alone (the repaired defect)", "kind": "mutant", "rule": "C18-I", "edits": [
+        (D, "        dtype = numpy.result_type(self.data.dtype, axis.data.dtype)", "        dtype = self.data.dtype", 1)]},
+    {"name": "axis handed back complex", "kind": "mutant", "rule": "C18-I", "edits": [
+        (D, "                    axis.data = numpy.real(data[:,0])\n                    return data[:,1:]", "                    axis.data = data[:,0]\n                    return data[:,1:]", 1)]},
+    {"name": "rank of the data not stored in the Matlab file (the repaired defect)", "kind": "mutant", "rule": "C18-I", "edits": [
+        (D, "            io.savemat(file, {\"data\":self.data, \"ndim\":self.data.ndim})", "            io.savemat(file, {\"data\":self.data})", 1)]},
+    {"name": "rank not restored on loading", "kind": "mutant", "rule": "C18-I", "edits": [
+        (D, "        if (\"ndim\" in mfile) and (int(mfile[\"ndim\"][0,0]) == 1):\n            _data = _data.reshape(-1)\n", "", 1)]},
 ]
